@@ -255,6 +255,18 @@ struct Driver {
   // otherwise the two columns stay where they are). Checked against get_column_with_pivot where that is readable; used
   // to steer clear of the known finding C06-chain-id-swap-return.
   std::vector<U> mat;
+  // known finding C06-chain-nobarcode-sign-by-id: without stored barcode Chain_vine_swap decides "negative" by comparing
+  // the IDs of the two pivots of a pair: trigger = one of the two cells is in a pair whose birth cell has the larger ID
+  bool is_f16_trigger(const RefState& rs, int i) const {
+    if (!need_cmp) return false;
+    for (int q : {i, i + 1}) {
+      int o = rs.partner(q);
+      if (o < 0) continue;
+      int b = std::min(q, o), d = std::max(q, o);
+      if (cid[size_t(b)] > cid[size_t(d)]) return true;
+    }
+    return false;
+  }
   size_t pmap = 0;
   bool swap_in_pmap(int i) const { return !(ru && !mapc) || size_t(i) + 1 < pmap; }
   // comparators (chain without stored barcode): answered from the reference state of the filtration before the swap
@@ -910,6 +922,7 @@ void run(vf::Tape& t, vf::Ctx& ctx) {
   bool swapped = false, removal_after_swap = false, pairing_change = false;
   int steps = 0;
   const bool f3 = O::is_of_boundary_type && ctx.excluded("C06-ru-removal-stale-u");
+  const bool f16 = D::need_cmp && ctx.excluded("C06-chain-nobarcode-sign-by-id");
   // known finding: the chain/IDENTIFIER overlay orders the two columns of a swap by MatIdx instead of by position (and
   // returns a MatIdx): avoided by not swapping cells whose columns are in the opposite order
   const bool f13 = D::api == Api::CH_ID && ctx.excluded("C06-chain-id-swap-return");
@@ -948,6 +961,10 @@ void run(vf::Tape& t, vf::Ctx& ctx) {
           if (f13 && ((A->mat[size_t(cand)] > A->mat[size_t(cand) + 1]) ||
                       (F && F->mat[size_t(cand)] > F->mat[size_t(cand) + 1]))) {
             ctx.hit("excluded:C06-chain-id-swap-return");
+            continue;
+          }
+          if (f16 && (A->is_f16_trigger(rs, cand) || (F && F->is_f16_trigger(rs, cand)))) {
+            ctx.hit("excluded:C06-chain-nobarcode-sign-by-id");
             continue;
           }
           if (f5 && (A->is_f5_trigger(md, rs, cand) || (F && F->is_f5_trigger(md, rs, cand)))) {
